@@ -77,7 +77,10 @@ macro_rules! impl_num {
                 let base: $t = match b.anchor {
                     0 => <$t>::MIN,
                     1 => <$t>::MIN.wrapping_add((1 as $t) << (<$t>::BITS - 1)),
-                    _ => <$t>::MAX,
+                    2 => <$t>::MAX,
+                    // 10 + k: 2^k ; 150 + k: -(2^k) (wrapping for unsigned types); k taken modulo the bit width
+                    a if a >= 150 => ((1 as $t) << ((a as u32 - 150) % <$t>::BITS)).wrapping_neg(),
+                    a => (1 as $t) << ((a as u32 - 10) % <$t>::BITS),
                 };
                 base.wrapping_add(b.off as $t)
             }
@@ -96,7 +99,9 @@ impl Num for u128 {
         let base: u128 = match b.anchor {
             0 => 0,
             1 => 1u128 << 127,
-            _ => u128::MAX,
+            2 => u128::MAX,
+            a if a >= 150 => (1u128 << ((a as u32 - 150) % 128)).wrapping_neg(),
+            a => 1u128 << ((a as u32 - 10) % 128),
         };
         base.wrapping_add(b.off as u128)
     }
@@ -112,7 +117,8 @@ impl Num for char {
         let n: i64 = match b.anchor {
             0 => b.off.rem_euclid(0x110000),
             1 => if b.off >= 0 { 0xE000 + b.off % 0x1000 } else { 0xD800 - ((-b.off) % 0x1000) },
-            _ => 0x10FFFF - b.off.rem_euclid(0x110000),
+            2 => 0x10FFFF - b.off.rem_euclid(0x110000),
+            a => ((1i64 << ((a as u32 - 10) % 20)) + b.off).rem_euclid(0x110000),
         };
         // anchor 0 / 2 offsets landing in the gap are moved past it
         let n = if (0xD800..0xE000).contains(&n) { n + 0x800 } else { n };
@@ -429,6 +435,27 @@ fn explore(ctx: &mut Ctx) {
             return;
         }
     }
+    // every power of two (and its negation): ranges of up to 6 elements straddling 2^k, for every type
+    for &ty in &all_ty {
+        for k in 1..128u8 {
+            for anchor in [10 + k, 150u8.saturating_add(k).min(254)] {
+                if anchor == 254 && k > 104 {
+                    continue;
+                }
+                for (lo_off, hi_off) in [(-3i64, 3i64), (-1, 1), (-2, 0), (0, 2)] {
+                    for form in [Form::Exclusive, Form::Inclusive] {
+                        for &(pattern, period) in &PATTERNS {
+                            eval(ctx, Case { ty, form, a: Bound { anchor, off: lo_off }, b: Bound { anchor, off: hi_off }, pattern, period, cap: 10 });
+                        }
+                    }
+                }
+            }
+        }
+        if ctx.too_many() {
+            return;
+        }
+    }
+    ctx.exhaustive_part("every type: short ranges straddling +-2^k for every k (modulo the bit width), both forms, 5 history patterns");
     // chars
     let cs: Vec<Bound> = vec![lo(0), lo(1), lo(0x7F), mid(-2), mid(-1), mid(0), mid(1), hi(1), hi(0)];
     for &a in &cs {
